@@ -368,3 +368,18 @@ func replayC05(dir string) int {
 }
 
 func init() { checks["C05"] = check{runC05, replayC05} }
+
+type rxRun = rx.RunResult
+
+// memoryVerdictAsanOnly: for checks that run on the ASan runtime without the ledger.
+func memoryVerdictAsanOnly(r rx.RunResult) string {
+	if strings.Contains(r.Stderr, "AddressSanitizer") || strings.Contains(r.Stderr, "LeakSanitizer") {
+		i := strings.Index(r.Stderr, "Sanitizer")
+		j := i + 400
+		if j > len(r.Stderr) {
+			j = len(r.Stderr)
+		}
+		return "sanitizer report: " + r.Stderr[max(0, i-10):j]
+	}
+	return ""
+}
